@@ -12,8 +12,8 @@ CONF = {
                 quick=dict(cfg="MCAttest_06", bits=[1024, 2048, 3072], nflip=40),
                 thorough=dict(cfg="MCAttest_06t", bits=[1024, 1536, 2048, 3072, 4096], nflip=400)),
     "C16": dict(test="TestVerifAttest16", fml="TC16", strict="Strict16",
-                quick=dict(cfg="MCAttest_16", mutperpos=2, truncstep=3, mintevery=7),
-                thorough=dict(cfg="MCAttest_16", mutperpos=8, truncstep=1, mintevery=1)),
+                quick=dict(cfg="MCAttest_16", mutperpos=2, truncstep=3, mintevery=7, nrandmh=3000),
+                thorough=dict(cfg="MCAttest_16", mutperpos=8, truncstep=1, mintevery=1, nrandmh=60000)),
 }
 CHUNK = 80000
 
@@ -103,7 +103,7 @@ def run(prop, tier):
     if prop == "C06":
         plan = {"c06": {"cases": cases, "bits": tc["bits"], "nflip": tc["nflip"], "workers": 4}}
     else:
-        plan = {"c16": {"cases": cases, "mutperpos": tc["mutperpos"], "truncstep": tc["truncstep"], "mintevery": tc["mintevery"]}}
+        plan = {"c16": {"cases": cases, "mutperpos": tc["mutperpos"], "truncstep": tc["truncstep"], "mintevery": tc["mintevery"], "nrandmh": tc["nrandmh"]}}
     meta = {"tier": tier, "seed": vlib.seed(), "plan": {k: v for k, v in list(plan.values())[0].items() if k != "cases"}}
     with open(planp, "w") as f:
         json.dump(plan, f)
